@@ -41,6 +41,26 @@ binding:   (a) one CASE line per value (every value up to length 5 / 6 over x : 
                (TraceDeb822Value: FreshChecks / BuildChecks); the CASE replay has the route ctor-para
                (Cls(paragraph of another class holding the value under a key multivalued THERE)) and start
                paragraphs that were empty first (BUILD_KINDS empty-*).
+faults:    (SIZE_STRESS part 5) objects the CALLER supplies fail at one point, then the history carries on.
+           Deb822ValueHist.FaultDump(o, k): o.dump(fd), fd failing while field k is written -- in both LTSs, as
+           ordinary steps of the walks (about every 9th step), as "faultdump" events of the recorded traces
+           (TraceDeb822Value: FaultChecks) and in front of the real dump of every third CASE replay.  File objects
+           (FAULT_KINDS, rotating): capacity-limited twins of io.BytesIO / io.StringIO / write()-only objects that
+           store what fits and raise OSError(ENOSPC / EPIPE / EIO), ValueError (closed), KeyError, RuntimeError,
+           a private exception class -- or return a SHORT count --, the room ending before / one unit into / in the
+           middle of / one unit before the end of the first, a middle or the last field (placed in units of text, not
+           in calls: a library writing the whole text at once meets the fault all the same); objects failing by
+           their nature at the first write: io.StringIO / a real text file without text_mode, io.BytesIO with
+           text_mode=True, a closed file, a file opened for reading, unbuffered /dev/full, encoding='ascii' over
+           non-ASCII text.  Verdict for the failed call: the caller's fault comes out as the file object produced
+           it (the very exception instance; a plain return for a short count) and nothing else; every paragraph is
+           what it was; the NEXT dump of the object (rotating output form) reads back as one paragraph with all its
+           field names.  What reached the failing file object is not judged.  FaultBuild(o, q, k) (construction
+           LTS): Cls(M), M a mapping of the caller raising at its k-th item (__getitem__ / iteration / lazy items()
+           / dict subclass): the exception instance comes out, no object is built, nothing changed.
+           Not applied: faults of the file objects a dump is READ BACK from (the reader is only the observation
+           channel here; C02 / C06 own it); update(M) with a failing M (MutableMapping.update is item-wise by
+           Python's definition: the statement does not decide what a half-consumed mapping leaves behind).
 sizes:     (notes/SIZE_STRESS.md) the abstract cases stay small; every 8th (quick) / 6th CASE line and
            every 3rd walk get a size-stressed concretization -- payload runs at 1..8193 and 64 KiB,
            the first special character at offset 4095/4096/4097, a continuation line repeated
@@ -120,10 +140,17 @@ within one history (legs: C = CASE replay, W = LTS walks on live objects, T = re
   subclasses Deb822, Dsc, Changes, BuildInfo, Release, PdiffIndex,   C W T (ALL_CLASSES rotate in every leg)
              Sources, Packages, Removals
              debian.copyright / debian.deb822.RestrictedWrapper      out of domain: wrappers with their own field rules (C17)
+             Cls(M), M failing at its k-th item                       W (FaultBuild): the caller's exception, no object, nothing changed
   text OUT   d.dump() / str(d) / d.__unicode__()                     C W T (DUMPS, rotating; __unicode__ = __str__)
              d.dump(fd) binary / d.dump(fd, encoding, False) /       C W T
                  bytes(d)
              d.dump(fd, text_mode=True)                              C W T
+             d.dump(fd) / dump(fd=fd) / dump(fd, enc, False) /       C W T (FaultDump / "faultdump", FAULT_KINDS rotating): in domain -- the
+                 dump(fd, text_mode=True) / dump(fd, None, True)     statement is about dumping "the paragraph": a dump that failed in the
+                 with a FAILING fd (exception at the first / a       caller's file object must not change what the next dump writes (error
+                 middle / the last field, short write, wrong kind    atomicity of the failed call, then the ordinary round trip)
+                 of file, closed file, /dev/full, encoding that
+                 cannot encode a field)
              d.dump(fd, encoding='iso8859-1') + reading with         C W T when every character is Latin-1 (else UnicodeEncodeError by
                  encoding='iso8859-1'                                documentation)
              d.get_as_string(k), d[k], d.get, items()                projection of the paragraph after every call (atomicity)
@@ -139,10 +166,11 @@ within one history (legs: C = CASE replay, W = LTS walks on live objects, T = re
              is_single_line / isSingleLine / is_multi_line / ...     out of domain: predicates on strings, no paragraph involved
 negative controls run in every check: NoIndentRule, AllowEndLF, ValidateLFOnly, ReaderNoWsRule must
 and StrictDroppedInGpgClasses, PosStrictMissedByPrepass must make TLC report Sound violated,
-MemoMode = "value" / "keyvalue", RejectStoresEmpty, TrustSourceClass (values of a carrier that is a paragraph of
+MemoMode = "value" / "keyvalue", RejectStoresEmpty, DumpMemoPartial (the entries formatted before a failed write are
+kept and replayed by later dumps: HistSound), TrustSourceClass (values of a carrier that is a paragraph of
 the target's class or of a subclass are not validated) and ParseLeavesUnchecked (an object whose parsing
 constructor met no field never validates again) HistoryFree;
-corrupted control traces (assignment, fresh and build events) must be rejected, a literal good one accepted.
+corrupted control traces (assignment, fresh, build and faultdump events) must be rejected, a literal good one accepted.
 """
 import io
 import json
@@ -155,8 +183,8 @@ from concurrent.futures import ThreadPoolExecutor
 import core
 
 MANIFEST = dict(
-    technique="TLA+ spec over code points (Deb822Value: statement layer + transcription of validate_input, _dump_format and the iter_paragraphs reader for str and file input with both whitespace settings; Deb822ValueHist: history-free assignment over several live paragraphs with a process-wide memo as implementation-layer negative control, plus construction actions -- a live paragraph replaced by an empty one or by one built from a mapping / a paragraph of any class -- with carrier-class trust and a stuck parser flag as negative controls) model-checked by TLC; bounded-exhaustive CASE lines and walks through the closed history LTS replayed into Deb822/Dsc/Changes/Release/BuildInfo/PdiffIndex with size-stressed concretizations; recorded multi-object assignment histories validated by TLC (TraceDeb822Value)",
-    text="TLC enumerates every value up to length 5 (quick) / 6 (thorough) over the seven symbols x : # space tab CR LF, assigns it to the first, middle and last field of a three-field paragraph and checks on the transcription of the code that an accepted value, dumped and read back by the character-level model of iter_paragraphs (str.splitlines for str input, LF-terminated lines for file input), gives exactly one paragraph with the same field names when whitespace-only lines do not separate paragraphs, and under the default setting too when no continuation line is blank (Sound); that the three defects named by the statement imply rejection and that the validator's scanner equals the declarative characterisation (RejectComplete, RejectExact); that rejection leaves the paragraph unchanged; that the classification is independent of the length of payload runs and of the number of repetitions of a continuation line (size lemmas). A second module makes the assignment a history over three live paragraphs of two kinds of class (Files validated / Files multivalued and unvalidated) plus multivalued-key assignments to throw-away objects: the reference verdict is history-free, the closed state space is explored and memoising by value, by (key, value) or leaving an empty field behind after a rejection are shown to break it. With WithBuild = TRUE the same module has two construction actions -- Fresh (a live paragraph is replaced by an EMPTY one: no argument / parsing constructor over field-less input / cleared in place) and Rebuild (it is replaced by Cls(M) for a mapping M carrying another live paragraph's fields, optionally with a raw value under Files, M being a plain mapping, a paragraph where Files is ordinary or a paragraph where Files is multivalued and therefore unvalidated) -- whose reference outcome depends on the target class and the values only; trusting the carrier's class and a parser that leaves validation switched off after field-less input are the negative controls. The read-back operator has the class / constructor dimension (plain classes vs. the gpg-aware Dsc / Changes / BuildInfo whose constructor cuts the paragraph out in a pre-pass; constructor vs. iter_paragraphs; str vs. line input; strict reaching the pre-pass and the field parser), with negative controls for a strict that is dropped before the field parser and for a positional strict the pre-pass does not see (a genuine defect found by this check, repaired in /repo 2236619). Every CASE line is replayed into the real classes (Deb822, Dsc, Changes, BuildInfo, Release, PdiffIndex; the dump is read back with Deb822.iter_paragraphs and through the producing class's own constructor / iter_paragraphs from str, bytes, list, StringIO, BytesIO with strict by keyword and positionally; all three positions for what is accepted, several concretizations of x, d[k]=v and update(), every 8th/6th case size-stressed: payload runs up to 64 KiB, the first special character at offset 4095/4096/4097, 100/1000 continuation lines, field names up to 1024 characters, paragraphs of up to 1000 fields), walks through the history LTS and through the construction LTS (every multivalued field of every class playing Files, 47 ways to an empty paragraph, eight kinds of mapping plus live and throw-away paragraphs of every class as carriers) are replayed on three live objects with outcome, all paragraphs and the read-back verdicts checked after every step, and assignment histories recorded from two live objects of five classes (values up to 40 characters re-used across keys, objects and classes, repeated after rejections, new keys, multivalued-key assignments, empty-paragraph replacements and constructions from mappings in between) are validated by TLC on the concrete code points. Dumps whose line ends are aligned to byte offsets 2^k (k = 9..17, +-1) are read back through every kind of file object (buffered / unbuffered / text files, short-read readers, gzip / bz2 / lzma, spooled files, generators).",
+    technique="TLA+ spec over code points (Deb822Value: statement layer + transcription of validate_input, _dump_format and the iter_paragraphs reader for str and file input with both whitespace settings; Deb822ValueHist: history-free assignment over several live paragraphs with a process-wide memo as implementation-layer negative control, plus construction actions -- a live paragraph replaced by an empty one or by one built from a mapping / a paragraph of any class -- with carrier-class trust and a stuck parser flag as negative controls, plus fault actions -- dump(fd) into a failing file object, a constructor handed a failing mapping -- with a partially filled dump memo as negative control) model-checked by TLC; bounded-exhaustive CASE lines and walks through the closed history LTS replayed into Deb822/Dsc/Changes/Release/BuildInfo/PdiffIndex with size-stressed concretizations; recorded multi-object assignment histories validated by TLC (TraceDeb822Value)",
+    text="TLC enumerates every value up to length 5 (quick) / 6 (thorough) over the seven symbols x : # space tab CR LF, assigns it to the first, middle and last field of a three-field paragraph and checks on the transcription of the code that an accepted value, dumped and read back by the character-level model of iter_paragraphs (str.splitlines for str input, LF-terminated lines for file input), gives exactly one paragraph with the same field names when whitespace-only lines do not separate paragraphs, and under the default setting too when no continuation line is blank (Sound); that the three defects named by the statement imply rejection and that the validator's scanner equals the declarative characterisation (RejectComplete, RejectExact); that rejection leaves the paragraph unchanged; that the classification is independent of the length of payload runs and of the number of repetitions of a continuation line (size lemmas). A second module makes the assignment a history over three live paragraphs of two kinds of class (Files validated / Files multivalued and unvalidated) plus multivalued-key assignments to throw-away objects: the reference verdict is history-free, the closed state space is explored and memoising by value, by (key, value) or leaving an empty field behind after a rejection are shown to break it. With WithBuild = TRUE the same module has two construction actions -- Fresh (a live paragraph is replaced by an EMPTY one: no argument / parsing constructor over field-less input / cleared in place) and Rebuild (it is replaced by Cls(M) for a mapping M carrying another live paragraph's fields, optionally with a raw value under Files, M being a plain mapping, a paragraph where Files is ordinary or a paragraph where Files is multivalued and therefore unvalidated) -- whose reference outcome depends on the target class and the values only; trusting the carrier's class and a parser that leaves validation switched off after field-less input are the negative controls. The read-back operator has the class / constructor dimension (plain classes vs. the gpg-aware Dsc / Changes / BuildInfo whose constructor cuts the paragraph out in a pre-pass; constructor vs. iter_paragraphs; str vs. line input; strict reaching the pre-pass and the field parser), with negative controls for a strict that is dropped before the field parser and for a positional strict the pre-pass does not see (a genuine defect found by this check, repaired in /repo 2236619). Every CASE line is replayed into the real classes (Deb822, Dsc, Changes, BuildInfo, Release, PdiffIndex; the dump is read back with Deb822.iter_paragraphs and through the producing class's own constructor / iter_paragraphs from str, bytes, list, StringIO, BytesIO with strict by keyword and positionally; all three positions for what is accepted, several concretizations of x, d[k]=v and update(), every 8th/6th case size-stressed: payload runs up to 64 KiB, the first special character at offset 4095/4096/4097, 100/1000 continuation lines, field names up to 1024 characters, paragraphs of up to 1000 fields), walks through the history LTS and through the construction LTS (every multivalued field of every class playing Files, 47 ways to an empty paragraph, eight kinds of mapping plus live and throw-away paragraphs of every class as carriers) are replayed on three live objects with outcome, all paragraphs and the read-back verdicts checked after every step, and assignment histories recorded from two live objects of five classes (values up to 40 characters re-used across keys, objects and classes, repeated after rejections, new keys, multivalued-key assignments, empty-paragraph replacements and constructions from mappings in between) are validated by TLC on the concrete code points. Faults of caller-supplied objects are ordinary steps of all three legs: dump(fd) with a file object that fails while the first / a middle / the last field is written (capacity-limited BytesIO / StringIO / write()-only objects raising OSError, ValueError, KeyError, RuntimeError, a private exception or returning a short count; text file without text_mode, closed file, /dev/full, unencodable field) and, in the construction LTS, Cls(M) with a mapping that raises at its k-th item -- the model actions FaultDump / FaultBuild leave every paragraph unchanged, the caller's fault must come out as it was produced and the next dump of the object must read back whole (negative control: a serialisation memo filled while the dump is consumed). Dumps whose line ends are aligned to byte offsets 2^k (k = 9..17, +-1) are read back through every kind of file object (buffered / unbuffered / text files, short-read readers, gzip / bz2 / lzma, spooled files, generators).",
     note="Small scope: values <= 6 symbols exhaustively, longer ones sampled; the history model has 3 objects x 3 keys x 3 values (closed), the construction model 3 objects x 2 keys x 3 values (closed). Sizes beyond ~40 characters are never scanned by TLC: they are concretizations of small abstract cases whose expectation is length-independent (size lemmas checked by TLC for one duplication step up to the bound -- evidence, not proof, for longer runs). Unspecified (executed, never judged on acceptance): 'zone' = a lone CR followed by something that is not indentation (rejected today), 'blank' = a whitespace-only continuation line (accepted today), any assignment to a multivalued key of its class (not validated today; likewise a constructor handed such a key, never generated); whatever is accepted on a validated key must still read back as one paragraph with the same keys. Default-setting read-back is judged only when no value of the paragraph has a blank continuation line. Characters outside the property's domain (NBSP, VT, FF, U+0085, U+2028, other Unicode whitespace) are never generated. Trusted: TLC, the projections (list(d.items()), key lists of the paragraphs read back), the concretizer. Spec-level negative controls and corrupted control traces are run in every check.",
     design="5 (C08)")
 
@@ -1137,6 +1165,21 @@ def check_case(case, clsname, conc, route="setitem", stats=None, wsel=0, known=N
             assign(d2, keys[(idx + 1) % len(keys)], conc.nb[(idx + 1) % len(keys)], "setitem")
         where += " [read back from its %s]" % rh
         d = d2
+    if wsel % 3 == 2:
+        # first a dump into a failing file object of the caller (Deb822ValueHist.FaultDump: the fault comes out,
+        # nothing changes, the dump that follows is the dump of the whole paragraph)
+        fsel = wsel // 3
+        before = project(d)                                          # (d may be a re-parsed copy by now)
+        fres, fdesc = fault_dump(d, before, (1, len(before), idx + 1, len(before) // 2 + 1)[fsel % 4], fsel)
+        if fres not in ("fault", "not-met"):
+            return "%s accepted; then %s: outcome %s, expected the fault of the caller's file object to come out and nothing else" % (where, fdesc, fres), drift
+        try:
+            after = project(d)
+        except Exception as e:                                       # noqa: BLE001
+            return "%s accepted; after the failed %s reading the paragraph raised %s" % (where, fdesc, type(e).__name__), drift
+        if after != before:
+            return "%s accepted; the failed %s changed the paragraph: %s" % (where, fdesc, short(show(after), 200)), drift
+        where += " [after a failed %s]" % fdesc
     dh = DUMPS[wsel % len(DUMPS)]
     text, rb = read_all(d, dh)
     if dh != "dump":
@@ -1192,8 +1235,9 @@ def replay_chunk(payload):
     seed, tier, off, chunk = payload
     quick = tier == "quick"
     rng = random.Random("C08-%s-cases-%d" % (seed, off))
-    out = {"n": 0, "stats": {}, "drift": [], "violations": [], "stress": {}, "known": [], "forms": {}}
+    out = {"n": 0, "stats": {}, "drift": [], "violations": [], "stress": {}, "known": [], "forms": {}, "faults": 0}
     WAY_STATS.clear()
+    FAULT_STATS.clear()
     known = []
     stats = {}
     big_left = 2 if quick else 8                      # 64 KiB values / 1000 lines / 1000 fields per chunk
@@ -1237,6 +1281,7 @@ def replay_chunk(payload):
         out["stats"] = {"%s/%s" % k: n for k, n in stats.items()}
         out["known"] = [len(known), known[:1]]
         out["forms"] = dict(WAY_STATS)
+        out["faults"] = sum(FAULT_STATS.values())
     except Exception:                                                # noqa: BLE001  harness bug, not an observation
         out["crash"] = traceback.format_exc()
     return out
@@ -2024,6 +2069,12 @@ def record_trace(rng, nev, script=None):
                     else:
                         car = ["para", cc, "", ""]
                 extra = {"src": rng.randint(1, len(objs)), "carrier": car, "style": rng.randrange(1000)}
+            elif ro < 0.30:                                                    # a dump into a failing file object of the caller
+                obj = rng.randint(1, len(objs))
+                if last is not None and last[0] and rng.random() < 0.5:
+                    obj = last[0]                                              # ... of the object just assigned to
+                clsname, key, v, route, carry = classes[obj - 1], "", "", "faultdump", ""
+                extra = {"pos": rng.choice(["first", "middle", "last", "any"]), "j": rng.randrange(1000), "sel": rng.randrange(10000)}
             elif last is not None and last[4] != "ok" and r < 0.25:
                 obj, clsname, key, v, _ = last                                 # the same call again after a rejection
             else:
@@ -2063,6 +2114,16 @@ def record_trace(rng, nev, script=None):
                 res = "ok"
             except Exception as e:                                   # noqa: BLE001
                 res = "EXC:" + type(e).__name__
+            last = None
+        elif route == "faultdump":
+            op = "faultdump"
+            cur = _items_all([objs[obj - 1]])[0]
+            if not cur:
+                continue                                  # an empty paragraph writes nothing: no fault can be met
+            j = {"first": 1, "last": len(cur), "middle": len(cur) // 2 + 1}.get(extra["pos"], 1 + extra["j"] % len(cur))
+            res, _ = fault_dump(objs[obj - 1], cur, j, extra["sel"])
+            if res == "not-met":
+                continue
             last = None
         elif route == "build":
             op = "build"
@@ -2109,7 +2170,8 @@ def record_trace(rng, nev, script=None):
             used.append(v)
             last = (obj, clsname, key, v, res)
         items = _items_all(objs)
-        if obj != 0 and res == "ok" and items[obj - 1]:
+        if obj != 0 and (res == "ok" or op == "faultdump") and items[obj - 1]:
+            # (after a failed dump: a NEW dump of the same object, read back)
             text, rb = read_all(objs[obj - 1], DUMPS[(i + len(v)) % len(DUMPS)])
             # one of the ways of the object's own class, rotating
             way = [w for w in pick_ways(i + len(v), 4) if w[3] != "omit"][0]
@@ -2173,6 +2235,9 @@ GOOD_TRACE = _tr([
     _ev(1, "Deb822", "", "", True, [[["Source", "y\n z"], ["Files", "y\n z"]], [["Source", "y\n z"]]], _rb(["Source", "Files"]),
         op="build", m=[["Source", "y\n z"], ["Files", "y\n z"]]),
     _ev(1, "Deb822", "", "", True, [[], [["Source", "y\n z"]]], op="build", m=[]),
+    # a dump of object 2 into a failing file object: the fault comes out, the next dump is the whole paragraph
+    _ev(2, "Dsc", "Binary", "y\n z", True, [[], [["Source", "y\n z"], ["Binary", "y\n z"]]], _rb(["Source", "Binary"])),
+    _ev(2, "Dsc", "", "", False, [[], [["Source", "y\n z"], ["Binary", "y\n z"]]], _rb(["Source", "Binary"]), res="fault", op="faultdump"),
 ])
 
 
@@ -2223,6 +2288,15 @@ def control_traces():
                     _ev(2, "Dsc", "Source", bad, True, [P3, [["Source", bad]]], _rb(["Source"]))]))
     out.append(_tr([_ev(1, "Deb822", "", "", True, [[], Q1], op="fresh"),
                     _ev(1, "Deb822", "B", "y\n", True, [[["B", "y\n"]], Q1], _rb(["B"]))]))
+    # ---- faults of the caller's file object
+    # after a failed dump the next dump holds only the fields written before the fault / nothing at all
+    out.append(_tr([_ev(1, "Deb822", "", "", False, [P3, Q1], _rb(K3, **{n: [["A"]] for n in TRBNAMES}), res="fault", op="faultdump")]))
+    out.append(_tr([_ev(1, "Deb822", "", "", False, [P3, Q1], _rb(K3, bF=[["A", "B"]]), res="fault", op="faultdump")]))
+    out.append(_tr([_ev(1, "Deb822", "", "", False, [P3, Q1], _rb(K3, **{n: [] for n in TRBNAMES}), res="fault", op="faultdump")]))
+    # the fault is swallowed / comes out as something else; the paragraph lost a field on the way
+    out.append(_tr([_ev(1, "Deb822", "", "", False, [P3, Q1], _rb(K3), res="swallowed", op="faultdump")]))
+    out.append(_tr([_ev(1, "Deb822", "", "", False, [P3, Q1], _rb(K3), res="EXC:AttributeError", op="faultdump")]))
+    out.append(_tr([_ev(1, "Deb822", "", "", False, [P3[:2], Q1], _rb(["A", "B"]), res="fault", op="faultdump")]))
     return out
 
 
@@ -2467,6 +2541,7 @@ def run(ctx):
     known_ex = []
     n_checked = 0
     n_bad = 0
+    n_cfault = 0
     sampled = set()
     payloads = [(ctx.seed, ctx.tier, off, cases[off:off + CASE_CHUNK]) for off in range(0, len(cases), CASE_CHUNK)]
     try:
@@ -2479,6 +2554,7 @@ def run(ctx):
         if r.get("crash"):
             raise core.MachineryError("case replay worker failed:\n" + r["crash"])
         n_checked += r["n"]
+        n_cfault += r.get("faults", 0)
         for k, n in r["stats"].items():
             stats[k] = stats.get(k, 0) + n
         for k, n in r["stress"].items():
@@ -2517,6 +2593,7 @@ def run(ctx):
                 "; read back as one paragraph %s from str/StringIO/BytesIO" % show(["A", "B", "C"]) if c["acc"] else "; items() unchanged"))
     ctx.extra["case_replays"] = n_checked
     ctx.extra["case_replay_violations"] = n_bad
+    ctx.extra["case_replays_after_a_failed_dump"] = n_cfault
     ctx.extra["size_stressed_replays"] = stress
     ctx.extra["outcomes_per_class"] = {k: n for k, n in sorted(stats.items()) if not k.startswith("aligned/")}
     ctx.extra["aligned_cases"] = {k[len("aligned/"):]: n for k, n in sorted(stats.items()) if k.startswith("aligned/")}
@@ -2586,6 +2663,7 @@ def run(ctx):
                                  "multivalued_key_events": sum(1 for t in traces for e in t["events"] if e["obj"] == 0),
                                  "new_key_events": sum(t["newkeys"] for t in traces),
                                  "fresh_events": sum(1 for t in traces for e in t["events"] if e["op"] == "fresh"),
+                                 "faulted_dump_events": sum(1 for t in traces for e in t["events"] if e["op"] == "faultdump"),
                                  "build_events": {r: sum(1 for t in traces for e in t["events"] if e["op"] == "build" and e["res"] == r)
                                                   for r in sorted({e["res"] for t in traces for e in t["events"] if e["op"] == "build"})},
                                  "build_events_with_raw_multivalued_value": sum(1 for t in traces for c in t["script"]["calls"]
@@ -2608,13 +2686,17 @@ def _evshow(t, i):
         s = "%s replaced by an empty paragraph (%s) -> %s, now holds %s" % (
             tgt, EMPTY_WAYS[how][extra.get("sel", 0) % len(EMPTY_WAYS[how])] if how in EMPTY_WAYS else "?", e["res"],
             short(show([[txt(f["k"]), txt(f["v"])] for f in e["items"][e["obj"] - 1]]), 120))
+    elif e.get("op") == "faultdump":
+        s = "%s dumped into a failing file object (%s, fault placed at field: %s) -> %s, paragraph afterwards %s" % (
+            tgt, FAULT_KINDS[extra.get("sel", 0) % len(FAULT_KINDS)][0], extra.get("pos"), e["res"],
+            short(show([[txt(f["k"]), txt(f["v"])] for f in e["items"][e["obj"] - 1]]), 120))
     elif e.get("op") == "build":
         s = "%s := %s with M = %s holding %s -> %s" % (
             tgt, BUILD_STYLES[extra.get("style", 0) % len(BUILD_STYLES)].replace("Cls", e["cls"]), extra.get("carrier"),
             short(show([[txt(f["k"]), txt(f["v"])] for f in e["m"]]), 200), e["res"])
     else:
         s = "%s [%s] := %s -> %s" % (tgt, txt(e["key"]), show(txt(e["v"])), e["res"])
-    if e["acc"] and e["obj"] != 0 and e["rb"]["o"]:
+    if (e["acc"] or e.get("op") == "faultdump") and e["obj"] != 0 and e["rb"]["o"]:
         s += " read back " + ",".join("%s=%s" % (n, _rbshow({"st": rb_get(e["rb"], n)["st"], "paras": [[txt(k) for k in p] for p in rb_get(e["rb"], n)["paras"]]})) for n in ("sF", "bT"))
     return s
 
